@@ -154,6 +154,9 @@ var (
 	hbFields   []hbField
 	hbElems    []hbField // slice-typed fields whose ELEMENTS are designated
 	hbMapTypes []string
+	// local variables that a function literal captures and that are assigned
+	// after their declaration (the shared variables of goroutine closures)
+	hbCaptured bool
 )
 
 func parseHB() {
@@ -167,6 +170,10 @@ func parseHB() {
 		}
 		if strings.HasPrefix(s, "maptype:") {
 			hbMapTypes = append(hbMapTypes, strings.TrimPrefix(s, "maptype:"))
+			continue
+		}
+		if s == "captured" {
+			hbCaptured = true
 			continue
 		}
 		elems := strings.HasPrefix(s, "elems:")
@@ -192,6 +199,8 @@ type rewriter struct {
 	skip    map[ast.Node]bool
 	funcs   []*types.Signature // enclosing function signatures
 	err     error
+	// shared local variables of this file (see findSharedVars)
+	shared map[*types.Var]bool
 }
 
 func rewritePackage(fset *token.FileSet, imp types.Importer, p *listPkg) {
@@ -429,6 +438,29 @@ func isNamed(t types.Type, pkg, name string) bool {
 	return o.Pkg() != nil && o.Pkg().Path() == pkg && o.Name() == name
 }
 
+// isSyncType reports whether t (or what it points to) is declared in sync,
+// sync/atomic, context or golang.org/x/sync/semaphore, or is a channel.
+func isSyncType(t types.Type) bool {
+	if t == nil {
+		return false
+	}
+	t = types.Unalias(t)
+	if _, ok := t.Underlying().(*types.Chan); ok {
+		return false // the channel VALUE stored in a field is plain memory
+	}
+	if p, ok := t.(*types.Pointer); ok {
+		_ = p
+		return false // a pointer field is plain memory, whatever it points to
+	}
+	if n, ok := t.(*types.Named); ok && n.Obj().Pkg() != nil {
+		switch n.Obj().Pkg().Path() {
+		case "sync", "sync/atomic":
+			return true
+		}
+	}
+	return false
+}
+
 func isOSFilePtr(t types.Type) bool {
 	if t == nil {
 		return false
@@ -500,7 +532,90 @@ func (rw *rewriter) objOf(e ast.Expr) ast.Expr {
 }
 
 func (rw *rewriter) file(f *ast.File) {
+	if hbCaptured && !strings.HasSuffix(rw.pkg.Path(), "/zzverif/h") {
+		rw.findSharedVars(f)
+	}
 	astutil.Apply(f, rw.pre, rw.post)
+}
+
+// findSharedVars collects the local variables (and parameters) of f's
+// functions that are (a) used inside a function literal that does not contain
+// their declaration and (b) assigned somewhere after their declaration.
+// These are the variables goroutine closures share with their creator; every
+// access to them is reported to the happens-before monitor. Variables that
+// are synchronisation objects themselves are left out.
+func (rw *rewriter) findSharedVars(f *ast.File) {
+	captured := map[*types.Var]bool{}
+	written := map[*types.Var]bool{}
+	var lits []*ast.FuncLit
+	localVar := func(id *ast.Ident) *types.Var {
+		v, ok := rw.info.Uses[id].(*types.Var)
+		if !ok || v.IsField() || v.Pkg() != rw.pkg || v.Parent() == nil || v.Parent() == rw.pkg.Scope() {
+			return nil
+		}
+		return v
+	}
+	markWrite := func(e ast.Expr) {
+		if id, ok := ast.Unparen(e).(*ast.Ident); ok {
+			if v := localVar(id); v != nil {
+				written[v] = true
+			}
+		}
+	}
+	var walk func(n ast.Node) bool
+	walk = func(n ast.Node) bool {
+		switch n := n.(type) {
+		case *ast.FuncLit:
+			lits = append(lits, n)
+			ast.Inspect(n.Body, walk)
+			lits = lits[:len(lits)-1]
+			return false
+		case *ast.Ident:
+			if v := localVar(n); v != nil && len(lits) > 0 {
+				in := lits[len(lits)-1]
+				if v.Pos() < in.Pos() || v.Pos() > in.End() {
+					captured[v] = true
+				}
+			}
+		case *ast.AssignStmt:
+			if n.Tok != token.DEFINE {
+				for _, l := range n.Lhs {
+					markWrite(l)
+				}
+			} else {
+				for _, l := range n.Lhs {
+					// x, err := f() re-assigns an existing err
+					if id, ok := l.(*ast.Ident); ok && rw.info.Defs[id] == nil {
+						markWrite(l)
+					}
+				}
+			}
+		case *ast.IncDecStmt:
+			markWrite(n.X)
+		case *ast.RangeStmt:
+			if n.Tok == token.ASSIGN {
+				if n.Key != nil {
+					markWrite(n.Key)
+				}
+				if n.Value != nil {
+					markWrite(n.Value)
+				}
+			}
+		case *ast.UnaryExpr:
+			if n.Op == token.AND {
+				// address taken: written through the pointer, as far as we know
+				markWrite(n.X)
+			}
+		}
+		return true
+	}
+	ast.Inspect(f, walk)
+	rw.shared = map[*types.Var]bool{}
+	for v := range captured {
+		if written[v] && !isSyncType(v.Type()) {
+			rw.shared[v] = true
+		}
+	}
 }
 
 func (rw *rewriter) pre(c *astutil.Cursor) bool {
@@ -1222,7 +1337,7 @@ func (rw *rewriter) wrapCall(c *astutil.Cursor, call *ast.CallExpr, what string,
 // ---- happens-before instrumentation of designated state -------------------
 
 func (rw *rewriter) hbPost(c *astutil.Cursor) {
-	if len(hbFields) == 0 && len(hbMapTypes) == 0 && len(hbElems) == 0 {
+	if len(hbFields) == 0 && len(hbMapTypes) == 0 && len(hbElems) == 0 && !hbCaptured {
 		return
 	}
 	if strings.HasSuffix(rw.pkg.Path(), "/zzverif/h") {
@@ -1241,6 +1356,10 @@ func (rw *rewriter) hbPost(c *astutil.Cursor) {
 		return
 	}
 	if _, isBlock := st.(*ast.BlockStmt); isBlock {
+		return
+	}
+	if c.Index() < 0 {
+		// not an element of a statement list (the communication of a select case)
 		return
 	}
 	reads, writes := rw.hbAccesses(st)
@@ -1307,6 +1426,12 @@ func (rw *rewriter) hbAccesses(st ast.Stmt) (reads, writes []hbAcc) {
 			if v.Name() == f.field && v.Pkg().Path() == f.pkg && isNamed(recv, f.pkg, f.typ) {
 				return f.typ + "." + f.field, true
 			}
+			// Type.* designates every field of the type, except fields that
+			// are synchronisation objects themselves (their methods are the
+			// synchronisation; touching them is not a plain memory access)
+			if f.field == "*" && v.Pkg().Path() == f.pkg && isNamed(recv, f.pkg, f.typ) && !isSyncType(v.Type()) {
+				return f.typ + "." + v.Name(), true
+			}
 		}
 		return "", false
 	}
@@ -1349,10 +1474,44 @@ func (rw *rewriter) hbAccesses(st ast.Stmt) (reads, writes []hbAcc) {
 		if e == nil {
 			return
 		}
+		if write {
+			// a write to x.f.g lands inside the memory of x.f when f holds a
+			// struct VALUE: it is a write of the designated field x.f
+			cur := ast.Unparen(e)
+			for first := true; ; first = false {
+				se, ok := cur.(*ast.SelectorExpr)
+				if !ok {
+					break
+				}
+				if desc, ok := isDesignatedField(se); ok && simpleExpr(se.X) {
+					if !first {
+						add(&writes, &ast.UnaryExpr{Op: token.AND, X: se}, desc)
+					}
+					break
+				}
+				t := rw.typeOf(se.X)
+				if t == nil {
+					break
+				}
+				if _, isPtr := types.Unalias(t).Underlying().(*types.Pointer); isPtr {
+					break
+				}
+				cur = ast.Unparen(se.X)
+			}
+		}
 		ast.Inspect(e, func(n ast.Node) bool {
 			switch n := n.(type) {
 			case *ast.FuncLit:
 				return false
+			case *ast.Ident:
+				if v, ok := rw.info.Uses[n].(*types.Var); ok && rw.shared[v] {
+					key := &ast.UnaryExpr{Op: token.AND, X: ast.NewIdent(n.Name)}
+					if write && n == ast.Unparen(e) {
+						add(&writes, key, "var "+n.Name)
+					} else {
+						add(&reads, key, "var "+n.Name)
+					}
+				}
 			case *ast.SelectorExpr:
 				if desc, ok := isDesignatedField(n); ok && simpleExpr(n.X) {
 					key := &ast.UnaryExpr{Op: token.AND, X: n}
